@@ -45,3 +45,42 @@ def havoc_before_loop(fn, loop_index, names, havoc):
             if not l.startswith(("---", "+++"))]
     return cut, dict(function=fn.__qualname__, loop_line=loop.lineno, loop=ast.unparse(loop.iter), havocked=list(names),
                      dropped=[], inserted=[ast.unparse(n) for n in new], diff=diff)
+
+
+def one_arbitrary_iteration_of_range_loops(fn, arb):
+    """Rewrites every `for <name> in range(<n>):` loop of `fn` (current source) into ONE iteration with an arbitrary index:
+
+            <name> = __arb_index__("<name>", <n>)        # 0 <= index < n, otherwise arbitrary (symbolic)
+            <body>
+
+    Used for flat-map loops over index ranges whose iterations are independent (side condition checked by
+    vf.loopshape on the same source): the body is then executed for an arbitrary index, symbolic bounds included."""
+    src = textwrap.dedent(inspect.getsource(fn))
+    tree = ast.parse(src)
+    fnode = tree.body[0]
+    rewritten = []
+
+    class T(ast.NodeTransformer):
+        def visit_For(self, node):
+            self.generic_visit(node)
+            it = node.iter
+            if isinstance(it, ast.Call) and isinstance(it.func, ast.Name) and it.func.id == "range" and len(it.args) == 1 \
+                    and isinstance(node.target, ast.Name) and not node.orelse:
+                rewritten.append(dict(index=node.target.id, bound=ast.unparse(it.args[0]), line=node.lineno))
+                assign = ast.parse(f"{node.target.id} = __arb_index__({node.target.id!r}, {ast.unparse(it.args[0])})").body[0]
+                return [assign] + node.body
+            return node
+    fnode = T().visit(fnode)
+    fnode.decorator_list = []
+    tree.body[0] = fnode
+    ast.fix_missing_locations(tree)
+    if not rewritten:
+        raise CutError(f"{fn.__qualname__}: no `for x in range(n)` loop to cut")
+    code = compile(tree, filename=f"<loop-cut of {fn.__qualname__}>", mode="exec")
+    ns = dict(fn.__globals__)
+    ns["__arb_index__"] = arb
+    exec(code, ns)
+    new_src = ast.unparse(tree)
+    diff = [l for l in difflib.unified_diff(ast.unparse(ast.parse(src)).splitlines(), new_src.splitlines(), lineterm="", n=0)
+            if not l.startswith(("---", "+++"))]
+    return ns[fnode.name], dict(function=fn.__qualname__, loops=rewritten, dropped=["iteration over all indices (one arbitrary index kept)"], diff=diff)
